@@ -54,6 +54,9 @@ pub struct Observed {
     pub debt_after: f64,
     pub total_before: usize,
     pub total_after: usize,
+    /// the `traced_gcs` counter (verification hook) before / after the op
+    pub traced_before: usize,
+    pub traced_after: usize,
     pub live_blocks: usize,
     pub alloc_violations: Vec<String>,
 }
@@ -85,6 +88,14 @@ pub struct Shadow {
     /// objects revived by `resurrect` in the running cycle (cleared when the cycle ends): they and
     /// everything strongly reachable from them must not be destructed by this cycle's sweep (C07)
     pub resurrected: Vec<u32>,
+    /// The collector went to sleep with nothing owed (see `observe`): it must stay asleep until
+    /// more than `wake` allocations were made.  `(wake, allocations since)`
+    pub sleep_win: Option<(f64, usize)>,
+    /// allocations made while the running sweep was in progress (the sweep does not visit them, so
+    /// they are not among the survivors it counts)
+    pub allocs_in_sweep: usize,
+    /// which monitor hypotheses were met by the last op (drained into the coverage table)
+    pub notes: Vec<&'static str>,
 }
 
 impl Shadow {
@@ -434,6 +445,59 @@ impl Shadow {
             }
         }
 
+        // ---- C09 / C10: collection work pays debt, it never creates any ----
+        // Every credit counter only grows during a call, the debits do not change, and the debt
+        // carried over a finished cycle is what was left of it (non-negative work factors).  This
+        // holds for calls that unwind out of a panicking `trace` too: the trace credit such a call
+        // takes back (`DropGuard` -> `make_gray_again` -> `mark_gc_untraced`) is exactly the one it
+        // was given for that object ("no metric update ever ... underflows", mechanism "trace credit
+        // is taken back when an object is re-queued by ... a panicking trace").
+        if let Op::Collect { method, .. } = op {
+            if !obs.ret.starts_with("panic:") {
+                let nonneg = self.pacing.map(|p| [p.sleep, p.mark, p.trace, p.keep, p.drop, p.free].iter().all(|d| d.num >= 0)).unwrap_or(true);
+                if nonneg && obs.debt_after > obs.debt_before + 1e-9 * obs.debt_before.abs().max(1.0) {
+                    let what = format!("{} increased allocation_debt {} -> {} (phase {} -> {}, steps={}, ret={})", method.name(), obs.debt_before, obs.debt_after,
+                        obs.phase_before.name(), obs.phase_after.name(), obs.steps, obs.ret);
+                    v("C09", what.clone());
+                    v("C10", what);
+                }
+                // C10, the trace-credit counter itself: it is reset when a cycle ends ('Z'), goes up by
+                // one for every object popped and traced ('g'), and a trace that panics leaves it where
+                // it was (+1, then the take-back).  Nothing else inside a collection call touches it.
+                let tail = match obs.steps.rfind('Z') {
+                    Some(z) => &obs.steps[z + 1..],
+                    None => obs.steps.as_str(),
+                };
+                let base = if obs.steps.contains('Z') { 0 } else { obs.traced_before };
+                let g = tail.bytes().filter(|c| *c == b'g').count();
+                let last_traced = obs.steps.bytes().rev().find(|c| *c == b'g' || *c == b'r');
+                let taken_back = usize::from(obs.ret == "panic" && last_traced == Some(b'g'));
+                let want = base + g - taken_back.min(g);
+                if taken_back == 1 {
+                    self.notes.push(if obs.traced_before > 0 || g > 1 { "trace-credit|faulted trace after other objects were traced" } else { "trace-credit|faulted trace, nothing traced before" });
+                    if obs.debt_before > 0.0 && obs.debt_after > 0.0 {
+                        self.notes.push("trace-credit|faulted trace observed with positive debt before and after");
+                    }
+                }
+                if obs.traced_after != want {
+                    v("C10", format!("trace credit counter: traced_gcs {} -> {} over `{op}` (steps={}, ret={}); {} objects were traced to completion since {}: expected {want}",
+                        obs.traced_before, obs.traced_after, obs.steps, obs.ret, g - taken_back.min(g), if obs.steps.contains('Z') { "the cycle began" } else { "the call began" }));
+                }
+                // C09 / C08: once a call has passed through Sleep it performs at most one whole cycle —
+                // the cycle it ran as a single atomic unit ends the call ("resets inherited debt after
+                // an atomic full cycle"): after the first 'W' at most one 'Z', and it is the last step
+                if let Some(wk) = obs.steps.find('W') {
+                    let rest = &obs.steps[wk + 1..];
+                    let zs = rest.bytes().filter(|c| *c == b'Z').count();
+                    if zs > 1 || (zs == 1 && !rest.ends_with('Z')) {
+                        let what = format!("{} kept collecting after the cycle it ran as an atomic unit had ended: steps={}", method.name(), obs.steps);
+                        v("C09", what.clone());
+                        v("C08", what);
+                    }
+                }
+            }
+        }
+
         // ---- C09: debt after debt-driven calls ----
         if let Op::Collect { method, fault: None, cont } = op {
             if obs.ret != "panic" {
@@ -454,14 +518,6 @@ impl Shadow {
                         }
                     }
                     _ => {}
-                }
-                // collection work pays debt, it never creates any: every credit counter only grows
-                // during a call, the debits do not change, and the debt carried over a finished cycle
-                // is what was left of it (non-negative work factors)
-                let nonneg = self.pacing.map(|p| [p.sleep, p.mark, p.trace, p.keep, p.drop, p.free].iter().all(|d| d.num >= 0)).unwrap_or(true);
-                if nonneg && obs.debt_after > obs.debt_before + 1e-9 * obs.debt_before.abs().max(1.0) {
-                    v("C09", format!("{} increased allocation_debt {} -> {} (phase {} -> {}, steps={})", method.name(), obs.debt_before, obs.debt_after,
-                        obs.phase_before.name(), obs.phase_after.name(), obs.steps));
                 }
                 // asleep with no debt: no progress
                 if obs.phase_before == CPhase::Sleeping && obs.debt_before == 0.0 && matches!(method, Method::CollectDebt | Method::CycleDebt | Method::MarkDebt) {
@@ -744,6 +800,94 @@ impl Shadow {
         }
         if obs.steps.contains('Z') || obs.phase_after == CPhase::Sleeping || matches!(op, Op::DropArena) {
             self.resurrected.clear();
+        }
+
+        // ---- C09: sleep is honoured ----
+        // "After a cycle that finished with no debt carried over, the collector stays asleep, making
+        // no progress and reporting zero debt, until allocations since then exceed
+        // max(min_sleep, sleep_factor x survivors), and reports positive debt once they do."
+        // Judged from the implementation's observations alone (steps, phase, debt, counts); the
+        // hypotheses mirror C09.sleep_schedule / sleep_honoured / stays_asleep: no debt was carried
+        // over because the cycle was atomic (the call passed through Sleep before it: `has_slept`) or
+        // because nothing was owed when the call began; no set_pacing / adjust_debt since.
+        if matches!(op, Op::Alloc { .. }) && !obs.ret.contains('!') {
+            if obs.phase_before == CPhase::Sweeping {
+                self.allocs_in_sweep += 1;
+            }
+            if let Some(w) = &mut self.sleep_win {
+                w.1 += 1;
+            }
+        }
+        if let Some((wake, n)) = self.sleep_win {
+            let few = (n as f64) <= wake;
+            self.notes.push(match (op, few) {
+                (Op::Collect { method: Method::CollectDebt | Method::CycleDebt | Method::MarkDebt, .. }, true) => "sleep-honoured|debt-driven call inside the sleep window",
+                (Op::Collect { .. }, _) => "sleep-honoured|window closed by a collection call",
+                (Op::Pacing(_) | Op::Adjust(_) | Op::DropArena | Op::New(_), _) => "sleep-honoured|window closed by set_pacing / adjust_debt / drop",
+                (_, true) => "sleep-honoured|mutator op inside the sleep window (debt must be 0)",
+                (_, false) => "sleep-honoured|mutator op past the wake-up amount (debt must be the excess)",
+            });
+            match op {
+                Op::Pacing(_) | Op::Adjust(_) | Op::DropArena | Op::New(_) => self.sleep_win = None,
+                Op::Collect { method, .. } => {
+                    if few && matches!(method, Method::CollectDebt | Method::CycleDebt | Method::MarkDebt) {
+                        if obs.steps != "-" || !obs.events.is_empty() || obs.phase_after != CPhase::Sleeping || obs.debt_after != 0.0 {
+                            out.push(Violation { property: "C09", key: "", what: format!(
+                                "sleep not honoured: {} made progress / reported debt after only {n} allocations since the collector went to sleep with nothing owed (it sleeps until more than max(min_sleep, sleep_factor x survivors) = {wake}): steps={} phase {} debt {}",
+                                method.name(), obs.steps, obs.phase_after.name(), obs.debt_after) });
+                            self.sleep_win = None;
+                        }
+                    } else {
+                        // a forced call, or enough allocations were made: the collector may wake
+                        self.sleep_win = None;
+                    }
+                }
+                _ => {
+                    if few {
+                        if obs.debt_after != 0.0 {
+                            out.push(Violation { property: "C09", key: "", what: format!(
+                                "sleep not honoured: allocation_debt = {} after only {n} allocations since the collector went to sleep with nothing owed (zero until more than max(min_sleep, sleep_factor x survivors) = {wake})",
+                                obs.debt_after) });
+                            self.sleep_win = None;
+                        }
+                    } else if obs.total_after > 0 {
+                        let want = n as f64 - wake;
+                        if !(obs.debt_after > 0.0) || (obs.debt_after - want).abs() > 1e-9 * want.max(1.0) {
+                            out.push(Violation { property: "C09", key: "", what: format!(
+                                "sleep schedule: {n} allocations since the collector went to sleep with nothing owed exceed the wake-up amount {wake}, but allocation_debt = {} (expected the excess {want})",
+                                obs.debt_after) });
+                            self.sleep_win = None;
+                        }
+                    }
+                }
+            }
+        }
+        if let Op::Collect { .. } = op {
+            if !obs.ret.starts_with("panic") && obs.steps.ends_with('Z') && obs.phase_after == CPhase::Sleeping {
+                let z = obs.steps.len() - 1;
+                let prev = obs.steps[..z].rfind('Z').map(|i| i + 1).unwrap_or(0);
+                let atomic = obs.steps[..z].contains('W');
+                let nonneg = self.pacing.map(|p| [p.sleep, p.mark, p.trace, p.keep, p.drop, p.free].iter().all(|d| d.num >= 0)).unwrap_or(true);
+                let nothing_owed = obs.debt_before == 0.0 && nonneg;
+                if atomic || nothing_owed {
+                    // survivors = what the sweep that just ended kept: everything still allocated,
+                    // except what was allocated while that sweep was under way
+                    let sweep_in_call = obs.steps[prev..z].contains('S');
+                    let survivors = obs.total_after.saturating_sub(if sweep_in_call { 0 } else { self.allocs_in_sweep });
+                    let p = self.pacing.unwrap_or(crate::exec::P0);
+                    let wake = (survivors as f64 * p.sleep.to_f64()).max(p.min_sleep as f64);
+                    self.sleep_win = Some((wake, 0));
+                    self.notes.push(if atomic { "sleep-honoured|window opened: atomic cycle" } else { "sleep-honoured|window opened: nothing owed" });
+                    if obs.debt_after != 0.0 {
+                        out.push(Violation { property: "C09", key: "", what: format!(
+                            "a cycle that ended with nothing carried over went to sleep reporting allocation_debt = {} (steps={})", obs.debt_after, obs.steps) });
+                        self.sleep_win = None;
+                    }
+                }
+            }
+            if obs.phase_after != CPhase::Sweeping {
+                self.allocs_in_sweep = 0;
+            }
         }
         out.extend(keyed);
     }
